@@ -271,7 +271,7 @@ func ruleChanHandshake(w *World, r *Report) {
 				return
 			}
 			n++
-			key := "unbuffered channel made in " + fname(fn)
+			key := "channel made in " + fname(fn)
 			if capacity > 0 {
 				// buffered: safe when the capacity covers every send site and none of them is in a loop
 				inLoop := false
